@@ -124,7 +124,9 @@ def gen_plan(rng, profile="accounting", tier="quick", knobs=None):
             o["direct"] = rng.random() < 0.4
             o["upd"] = upd if o["direct"] else True
             if k.get("sizing"):
-                o["mode"] = rng.choice(["frac", "units", "units", "close", "close_ulp", "tiny", "zero"])
+                o["mode"] = rng.choice(["frac", "units", "units", "close", "close_ulp", "close_near", "tiny", "zero"])
+                # close_near: an amount close to, but not, minus the holding's value (relative distance 1e-11 .. 1e-4)
+                o["rel"] = rng.choice([1, -1]) * 10 ** rng.uniform(-11, -4)
                 o["units"] = rng.choice([1, 2, 3, 7, 50]) * rng.choice([1, -1])
                 o["eps"] = rng.choice([0.0, 1e-9, -1e-9, 0.01, -0.01, 0.5, -0.5])
                 o["ill"] = rng.random() < 0.3
@@ -506,7 +508,10 @@ class TreeSim(taps.Sim):
             if msg.startswith("Cannot allocate capital to "):
                 name = msg[len("Cannot allocate capital to "):].split(" because")[0]
                 p = self.feed.price(m.t, name)
-                if p != p or abs(p) < TOL:
+                la = self.last_sec_alloc
+                # a refusal needs a trade: an allocation of exactly nothing "does nothing" (C05), whatever the quote
+                asked = la is not None and la[0] == name and not (abs(la[1]) < TOL)
+                if (p != p or abs(p) < TOL) and asked:
                     self.fire("refused_trade_bad_price")
                     raise Stop("trade_at_bad_price")
             if "latest price is NaN" in msg and (m.open_nan() or self.paper_open_nan()):
@@ -787,7 +792,7 @@ class TreeSim(taps.Sim):
         p, sspec = self.pick_strat(o)
         node = self.rnode(p)
         done = False
-        if self.plan.get("twin_flush") and (self.in_batch or root.stale) and (kind in ("rebal", "close", "flatten") or (kind == "alloc" and o.get("mode") in ("close", "close_ulp"))):
+        if self.plan.get("twin_flush") and (self.in_batch or root.stale) and (kind in ("rebal", "close", "flatten") or (kind == "alloc" and o.get("mode") in ("close", "close_ulp", "close_near"))):
             # flush-schedule twins: an operation that sizes itself from current values is preceded by a refresh in both
             # schedules (whether an update=False change is seen by a later value read depends on whether the stale flag
             # happens to be pending - the caller's documented opt-out, not a property of the update machinery)
@@ -912,13 +917,18 @@ class TreeSim(taps.Sim):
             amt = 0.3 * price * mult * (1 if o["frac"] > 0 else -1)
         elif mode == "units":
             amt = o["units"] * price * mult + o.get("eps", 0.0)
-        elif mode in ("close", "close_ulp"):
+        elif mode in ("close", "close_ulp", "close_near"):
             if not exists or self.in_batch:
                 return False
             v = node.children[cname].value
             amt = -v
             if mode == "close_ulp" and v != 0:
                 amt = math.nextafter(amt, math.inf if o["frac"] > 0 else -math.inf)
+            if mode == "close_near" and v != 0:
+                amt = -v * (1.0 + o.get("rel", 1e-7))
+                if amt == -v:
+                    return False
+                self.fire("alloc_near_close_out")
             if isz(amt):
                 return False
         else:
